@@ -64,6 +64,9 @@ STDLIB_TRUSTED = {
     "importlib.util.find_spec": "import machinery (module load time only)",
     "types.ModuleType": "constructor",
     "os.path.basename": "string op",
+    "re.compile": "compiles a literal pattern at import time",
+    "re.findall": "regex scan of a str", "re.match": "regex scan of a str", "re.search": "regex scan of a str",
+    "re.fullmatch": "regex scan of a str", "re.split": "regex scan of a str", "re.sub": "regex scan of a str",
 }
 # methods of objects of external types that are trusted
 EXT_METHOD_TRUSTED = {
@@ -78,6 +81,8 @@ EXT_METHOD_TRUSTED = {
     ("threading.Thread", "start"), ("threading.Thread", "join"),
     ("contextvars.copy_context", "run"),
     ("weakref.WeakKeyDictionary", "__setitem__"),
+    ("re.compile", "findall"), ("re.compile", "finditer"), ("re.compile", "match"), ("re.compile", "search"),
+    ("re.compile", "fullmatch"), ("re.compile", "split"), ("re.compile", "sub"),
 }
 # external callables that run user code or can fail because of the data given
 EXT_FOREIGN = {
@@ -93,7 +98,17 @@ EXT_FOREIGN = {
 EXT_OBJECT_TYPES = {
     "contextvars.ContextVar", "contextvars.copy_context", "threading.Lock", "threading.RLock",
     "threading.Thread", "queue.SimpleQueue", "queue.Queue", "queue.LifoQueue",
-    "queue.PriorityQueue", "weakref.WeakKeyDictionary", "threading.local",
+    "queue.PriorityQueue", "weakref.WeakKeyDictionary", "threading.local", "re.compile",
+}
+
+# method names that belong to protocols of foreign objects (files, queues, generators,
+# threads, deferreds, user serializers/validators): never resolved by name alone
+GENERIC_METHOD_NAMES = {
+    "write", "flush", "read", "close", "send", "throw", "get", "put", "run", "join", "start", "stop",
+    "add", "remove", "update", "validate", "serialize", "acquire", "release", "set", "reset",
+    "addCallback", "addCallbacks", "addErrback", "addBoth", "result", "cancel", "getBriefTraceback",
+    "default", "encode", "decode", "writable", "wait", "notify", "emit", "getMessage", "tolist",
+    "to_list", "to_dict", "to_dicts", "model_dump", "isoformat", "new", "bind", "log",
 }
 
 # Receiver-type conventions that no assignment in the repo can justify because the
@@ -596,6 +611,7 @@ class Typer:
             base_types = self._type(module, func, fn.value, depth + 1)
             out = []
             unknown_attr = False
+            missing_method = False  # some inferred receiver class lacks the method (type imprecision)
             for t in base_types:
                 if isinstance(t, ClassInfo) and fn.attr == "__class__":
                     out.append(Target("class", t))
@@ -619,7 +635,7 @@ class Typer:
                             # inherited from an external base class (PClass.set, Service.startService)
                             out.append(Target("ext", "%s.%s" % (t.base_exprs[0], fn.attr), "inherited"))
                         else:
-                            unknown_attr = True
+                            missing_method = True
                 elif isinstance(t, tuple) and t[0] == "classobj":
                     m = t[1].find_method(fn.attr)
                     if m is not None:
@@ -637,11 +653,21 @@ class Typer:
                 if unknown_attr:
                     out.append(Target("foreign", unparse(fn), "attribute %r holds a caller-supplied callable" % fn.attr))
                 return out
-            if unknown_attr:
+            if unknown_attr or (missing_method and fn.attr in GENERIC_METHOD_NAMES):
                 return [Target("foreign", unparse(fn), "attribute %r of a repo object holds a caller-supplied callable" % fn.attr)]
             # untyped receiver
             if fn.attr in CONTAINER_METHODS:
                 return [Target("container", fn.attr)]
+            # class-hierarchy analysis by method name, for names that only the repo's own
+            # classes define (not names of file/queue/generator/thread protocols)
+            if fn.attr not in GENERIC_METHOD_NAMES and not fn.attr.startswith("__"):
+                cands = []
+                for m in p.prod_modules():
+                    for ci in m.classes.values():
+                        if fn.attr in ci.methods and ci.methods[fn.attr].cls is ci:
+                            cands.append(ci.methods[fn.attr])
+                if cands:
+                    return [Target("repo", c, "by-name") for c in cands]
             return [Target("foreign", unparse(fn), "method %r of an object supplied by the caller" % fn.attr)]
         # 3. call of a call result / subscript etc.
         ts = self._type(module, func, fn, depth + 1)
